@@ -8,6 +8,7 @@ import (
 	"os"
 	"os/exec"
 	"path/filepath"
+	"regexp"
 	"runtime"
 	"runtime/debug"
 	"sort"
@@ -112,6 +113,13 @@ func execRun(chk Check, c *Ctx) (v *Violation, perr error) {
 // one occurs before any harness frame ("" otherwise). Frames of the runtime, the standard
 // library and third-party libraries are skipped.
 func repoFrameFirst(stack string) string {
+	f, _ := classifyStack(stack)
+	return f
+}
+
+// classifyStack returns the first repository frame of a goroutine stack if it comes before any harness
+// frame; harness reports whether a harness frame came first.
+func classifyStack(stack string) (frame string, harness bool) {
 	for _, ln := range strings.Split(stack, "\n") {
 		if strings.HasPrefix(ln, "\t") || ln == "" {
 			continue
@@ -120,22 +128,40 @@ func repoFrameFirst(stack string) string {
 		case strings.HasPrefix(ln, "worldcoin/gnark-mbu/simyield"):
 			continue
 		case strings.HasPrefix(ln, "worldcoin/gnark-mbu/"), strings.HasPrefix(ln, "main."):
-			if i := strings.IndexByte(ln, '('); i > 0 {
-				return ln[:i]
+			if i := strings.LastIndexByte(ln, '('); i > 0 {
+				return ln[:i], false
 			}
-			return ln
+			return ln, false
 		case strings.HasPrefix(ln, "verifsim/"):
 			if strings.HasPrefix(ln, "verifsim/engine.execRun") {
 				continue
 			}
-			return ""
+			return "", true
 		}
 	}
-	return ""
+	return "", false
+}
+
+var createdByRe = regexp.MustCompile(`(?m)^created by .* in goroutine (\d+)$`)
+
+// goroutineBlock returns the stack of goroutine n from a GOTRACEBACK=all dump.
+func goroutineBlock(out string, n string) string {
+	i := strings.Index(out, "\ngoroutine "+n+" [")
+	if i < 0 {
+		return ""
+	}
+	rest := out[i+1:]
+	if k := strings.Index(rest, "\n\n"); k >= 0 {
+		rest = rest[:k]
+	}
+	return rest
 }
 
 // crashInfo extracts the panic message and the deciding repository frame from the output of
-// a process that died.
+// a process that died. When the panicking goroutine consists of library frames only (a worker
+// goroutine spawned inside a library call), the goroutine that created it decides, and so on up the
+// chain: a library worker started by a repository function that the harness called is the
+// repository's crash; one started by a library function the harness called directly is not.
 func crashInfo(out string) (msg, frame string) {
 	i := strings.Index(out, "panic: ")
 	j := strings.Index(out, "fatal error: ")
@@ -151,12 +177,34 @@ func crashInfo(out string) (msg, frame string) {
 		msg = rest[:k]
 	}
 	// only the first goroutine's stack (the one that panicked)
+	first := rest
 	if k := strings.Index(rest, "\n\ngoroutine "); k >= 0 {
 		if k2 := strings.Index(rest[k+2:], "\n\n"); k2 >= 0 {
-			rest = rest[:k+2+k2]
+			first = rest[:k+2+k2]
 		}
 	}
-	return msg, repoFrameFirst(rest)
+	cur := first
+	for depth := 0; depth < 6; depth++ {
+		f, harness := classifyStack(cur)
+		if f != "" {
+			if depth > 0 {
+				f += " (which started the library goroutine that panicked)"
+			}
+			return msg, f
+		}
+		if harness {
+			return msg, ""
+		}
+		m := createdByRe.FindStringSubmatch(cur)
+		if m == nil {
+			return msg, ""
+		}
+		cur = goroutineBlock(rest, m[1])
+		if cur == "" {
+			return msg, ""
+		}
+	}
+	return msg, ""
 }
 
 // Main is the entry point shared by all properties.
@@ -353,9 +401,9 @@ func coordinatorMain(chk Check, o *Options) int {
 			var eb bytes.Buffer
 			cmd.Stderr = &eb
 			cmd.Stdout = &eb
-			cmd.Env = os.Environ()
+			cmd.Env = append(os.Environ(), "GOTRACEBACK=all") // a crash dump names the creator of a library goroutine
 			e := cmd.Run()
-			r := wres{err: e, log: tail(eb.String(), 4000), fullLog: tail(eb.String(), 200000)}
+			r := wres{err: e, log: tail(eb.String(), 4000), fullLog: tail(eb.String(), 2000000)}
 			if b, rerr := os.ReadFile(outp); rerr == nil {
 				var wo WorkerOut
 				if jerr := json.Unmarshal(b, &wo); jerr == nil {
@@ -715,7 +763,7 @@ func replayMain(chk Check, o *Options) int {
 	if rf.Crash && os.Getenv("SIMCHECK_CRASH_CHILD") == "" {
 		self, _ := os.Executable()
 		cmd := exec.Command(self, "-prop", chk.ID(), "-replay", o.ReplayPath)
-		cmd.Env = append(os.Environ(), "SIMCHECK_CRASH_CHILD=1")
+		cmd.Env = append(os.Environ(), "SIMCHECK_CRASH_CHILD=1", "GOTRACEBACK=all")
 		outb, _ := cmd.CombinedOutput()
 		msg, frame := crashInfo(string(outb))
 		if frame != "" && chk.ID()+"/process-crash/"+sanitize(msg) == rf.Violation.Class {
